@@ -38,7 +38,11 @@ RULE = (
     "widths 8/16/32; the new bytes are decoded with the C10 reference address function; for the subview pattern the tile "
     "layout must be the global's new layout restricted to the tile. transpose_tuple and the whole RemoveTransposeConstants "
     "pattern: all shapes 1..12 x 1..12. Boundaries: function type, block arguments and returned types before and after "
-    "clear-memory-space. Non-trivial: explicit program with a cast chain >= 2 or a cast value used by a reader and a writer; "
+    "clear-memory-space; signatures mix memrefs with an explicit space (L1, L3) and without one, as arguments and results: every "
+    "annotated boundary type keeps its annotation, un-annotated ones become L3. Dynamic shapes: arguments and allocs with `?` "
+    "at any subset of the dimensions (rank 1..3, extents that differ per dimension); the machine works on run-time shapes, "
+    "evaluates memref.dim, and a copy between views of different run-time shape or an op operand of another run-time shape "
+    "than in the input program is a violation. Non-trivial: explicit program with a cast chain >= 2 or a cast value used by a reader and a writer; "
     "implicit program with >= 2 ops; constant whose target layout is not row-major and was really re-laid-out (no copy left)."
 )
 ASSUMPTIONS = [
@@ -307,6 +311,8 @@ class Case:
                 mis.append(("value-used-before-it-is-defined", dict(error=str(e)[:200])))
             except M.Unsupported as e:
                 raise Outside(f"machine: {str(e)[:80]}")
+            except M.ShapeMismatch as e:
+                mis.append(("copy-between-buffers-of-different-run-time-shape", dict(error=str(e)[:300])))
             except InterpError as e:
                 mis.append(("output-program-not-executable", dict(error=str(e)[:200])))
             n += 1
@@ -500,6 +506,21 @@ def prop_boundaries(r):
         raise Violation("boundaries:after-clear:" + bad2[0]["kind"], dict(problems=bad2[:4], before=to_text(c.out), after=to_text(mod)))
     nmem = sum(1 for a in c.built.arg_spec if a[0] == "mem") + len(c.r.get("ret", []))
     cls = _classes(c)
+    from xdsl.dialects import func
+
+    for f in c.orig.walk():
+        if isinstance(f, func.FuncOp) and (f.sym_visibility is None or f.sym_visibility.data == "public"):
+            ins_ = [memspace(t) for t in f.function_type.inputs if is_memref(t)]
+            outs_ = [memspace(t) for t in f.function_type.outputs if is_memref(t)]
+            both = ins_ + outs_
+            if any(x is None for x in both) and any(x is not None for x in both):
+                cls.add("sig:annotated-and-unannotated-memrefs")
+                if "L1" in ins_:
+                    cls.add("sig:explicit-L1-argument-beside-unannotated")
+                if "L1" in outs_:
+                    cls.add("sig:explicit-L1-result-beside-unannotated")
+                if "L3" in both:
+                    cls.add("sig:explicit-L3-beside-unannotated")
     return Info(nontrivial=nmem >= 1, classes=tuple(sorted(cls)), sample=c.shown())
 
 
@@ -720,7 +741,8 @@ def _prog_no_const(tier):
                 rt["kind"] = "glob"
         return r
 
-    return G.program(tier).map(fix)
+    # half of the cases in implicit mode: only there memrefs without a memory space exist, also beside annotated ones
+    return st.one_of(G.program(tier), G.program(tier, mode="implicit")).map(fix)
 
 
 SUBS = [
